@@ -104,7 +104,7 @@ func H_C18_epub_package_from_xml() {
 // (namespace prefixes, nested CipherData), not from a pre-parsed structure.
 //
 //symgo:harness prop=C20 kernel=K5-drm-from-xml noreplay=1
-//symgo:desc archive members given as texts (zip member content model); META-INF/encryption.xml absent, or with one or two EncryptedData entries out of {IDPF font obfuscation of a font, AES-256 of a chapter, AES-128 of an image}, or empty, or truncated mid-element (enumerated); element names with or without the enc: prefix (enumerated); optional META-INF/rights.xml: checkForDRM (real tokeniser, modelled reflection walk) refuses exactly when rights.xml is present, a chapter is encrypted, or encryption.xml cannot be parsed
+//symgo:desc archive members given as texts (zip member content model); META-INF/encryption.xml absent, or with one or two EncryptedData entries out of {IDPF font obfuscation of a font, Adobe font obfuscation of a font, IDPF obfuscation of a style sheet, AES-256 of a chapter whose URI is spelled in upper case / with the .xht extension / as an SVG content document / with a percent-encoded dot / with trailing white space, AES-128 of an image}, or empty, or truncated mid-element (enumerated); element names with or without the enc: prefix (enumerated); optional META-INF/rights.xml: checkForDRM (real tokeniser, modelled reflection walk) refuses exactly when rights.xml is present, a chapter is encrypted, or encryption.xml cannot be parsed
 func H_C20_drm_from_xml() {
 	pfx := ""
 	xmlns := `xmlns="urn:oasis:names:tc:opendocument:xmlns:container" xmlns:enc="http://www.w3.org/2001/04/xmlenc#"`
@@ -116,12 +116,23 @@ func H_C20_drm_from_xml() {
 		return `<` + pfx + `EncryptedData` + encNS + `><` + pfx + `EncryptionMethod Algorithm="` + algo + `"/><` + pfx + `CipherData><` + pfx + `CipherReference URI="` + uri + `"/></` + pfx + `CipherData></` + pfx + `EncryptedData>`
 	}
 	font := entry("http://www.idpf.org/2008/embedding", "OEBPS/fonts/f.otf")
-	chap := entry("http://www.w3.org/2001/04/xmlenc#aes256-cbc", "OEBPS/Text/ch1.XHTML")
+	// the encrypted chapter's URI as packagers spell it: different case, the .xht extension, an SVG content document,
+	// a percent-encoded character, trailing white space
+	chapURI := []string{"OEBPS/Text/ch1.XHTML", "OEBPS/Text/ch1.xht", "OEBPS/Text/page1.svg", "OEBPS/Text/ch1%2Exhtml", "OEBPS/Text/ch1.xhtml "}[vAnyIntIn(0, 4)]
+	chap := entry("http://www.w3.org/2001/04/xmlenc#aes256-cbc", chapURI)
+	// the two standard obfuscation algorithms, applied (as they are meant to be) to a font; and - obfuscation only, so
+	// not DRM - applied by a sloppy packager to a style sheet
+	font2 := entry("http://ns.adobe.com/pdf/enc#RC", "OEBPS/fonts/g.ttf")
+	obfCSS := entry("http://www.idpf.org/2008/embedding", "OEBPS/Styles/main.css")
 	img := entry("http://www.w3.org/2001/04/xmlenc#aes128-cbc", "OEBPS/img/cover.jpg")
 	head := `<?xml version="1.0" encoding="UTF-8"?><encryption ` + xmlns + `>`
 	var enc string
 	has, drm := true, false
-	switch vAnyIntIn(0, 6) {
+	switch vAnyIntIn(0, 8) {
+	case 7:
+		enc = head + font + font2 + `</encryption>`
+	case 8:
+		enc = head + obfCSS + font2 + `</encryption>`
 	case 0:
 		has = false
 	case 1:
